@@ -497,6 +497,8 @@ def apply_step(F, O, step):
     if op == "subs":
         kw = OrderedDict((n, val_build(vs, O.inputs[n])) for n, vs in step["subs"].items())
         how = step.get("how")
+        if not isinstance(F, Gaussian):
+            how = None  # the explicit-order / lazily chained variants are contracts of Gaussian.eager_subs only
         if how == "reversed":
             from funsor.terms import Subs, to_funsor
 
